@@ -152,8 +152,11 @@ class GeminiClient:
             >>> if response.is_success():
             ...     print(response.body)
         """
-        # Validate URL
+        # Validate URL - and the normalized form, which is what goes on the
+        # wire as the request line (it can be one byte longer: '/' for an
+        # empty path)
         validate_url(url)
+        validate_url(parse_url(url).normalized)
 
         # Get with redirect following if enabled
         if follow_redirects:
